@@ -3,8 +3,9 @@
 The bus is a list of devices.  For the address procedures a device is `<addr><prog><beh>`:
 addr t (the target address 1.1.1) | o (another address 1.1.2); prog 1|0 (programming mode);
 beh A (answers point-to-point requests) | S (silent) | R (refuses: T_Disconnect on T_Connect).
-For the serial-number procedures a device is `<addr><serial><c|q>`: serial 1|2, c = "chatty" (answers every
-serial read with its own serial, e.g. answers meant for another tool), q = answers only its own serial.
+For the serial-number procedures a device is `<addr><serial><c|q><w|x>`: serial 1|2, c = "chatty" (answers every
+serial read with its own serial, e.g. answers meant for another tool), q = answers only its own serial;
+w = takes an address written to its serial, x = ignores the write.
 Reactions of the devices are delivered one loop iteration after the telegram that causes them was sent
 (`loop.call_soon`), in bus order; timeouts run on the virtual-time loop.
 """
@@ -41,7 +42,7 @@ CASE_TIMEOUT = 10.0
 RULE = ("exhaustive: every ordered bus population of 0..3 devices over {target address, other address} x programming mode x "
         "{answers, silent, refuses} (1885 populations) through nm_individual_address_write, nm_individual_address_check, "
         "nm_individual_address_read (raise_if_multiple on/off) and dm_restart; every population of 0..3 devices over "
-        "{2 addresses} x {2 serials} x {chatty, quiet} through the serial-number read (both serials) and write (both serials x "
+        "{2 addresses} x {2 serials} x {chatty, quiet} x {takes, ignores the write} through the serial-number read (both serials) and write (both serials x "
         "both addresses) procedures; dmp_authorize2_r_co over all 16x16 (free level, key level) pairs and all 16^3 answer triples "
         "of levels {0,1,2,3,7,15}; non-trivial = every case (all distinct)")
 TRUSTED = ["model XknxVerif.Model.Procedures hand-written (bus primitives + procedures as decision functions)",
@@ -71,6 +72,7 @@ class Dev:
             self.prog, self.beh = False, "S"
             self.serial = spec[1]
             self.chatty = spec[2] == "c"
+            self.obeys = spec[3] == "w"
         self.conn = False
         self.seq = 0
         self.levels = None
@@ -79,7 +81,7 @@ class Dev:
     def render(self, kind):
         if kind == "addr":
             return f"{self.addr}{int(self.prog)}{self.beh}"
-        return f"{self.addr}{self.serial}{'c' if self.chatty else 'q'}"
+        return f"{self.addr}{self.serial}{'c' if self.chatty else 'q'}{'w' if self.obeys else 'x'}"
 
 
 class Bus:
@@ -123,7 +125,7 @@ class Bus:
             elif isinstance(p, apci.IndividualAddressSerialWrite):
                 self.sent.append(f"B:swrite:{RSERIAL.get(p.serial, '?')}:{RADDR.get(p.address, '?')}")
                 for d in self.devs:
-                    if d.serial is not None and SERIAL[d.serial] == p.serial:
+                    if d.serial is not None and SERIAL[d.serial] == p.serial and d.obeys:
                         d.addr = RADDR[p.address]
             else:
                 self.sent.append(f"B:?{type(p).__name__}")
@@ -280,6 +282,10 @@ def oracle(case, out):
                     return "target already held by the device in programming mode, but the address was written"
             if res == "ok" and not any(x.endswith(":restart") for x in tels):
                 return "procedure succeeded without restarting the device"
+            if (len(prog) == 1 and prog[0][0] == "t" and any(d[2] == "A" for d in before if d[0] == "t")
+                    and not any(d[2] == "R" for d in before if d[0] == "t")):
+                if res != "ok" or not any(x.endswith(":restart") for x in tels):
+                    return f"target already held by the answering device in programming mode: result {res}, restart not sent"
         restarted = [i for i in range(len(after)) if before[i][1] and not after[i][1]]
         for i in restarted:
             if after[i][0] != "t":
@@ -297,8 +303,8 @@ def oracle(case, out):
         return None
     if proc in ("sread", "swrite"):
         serial = t[2]
-        before = [(x[0], x[1], x[2] == "c") for x in ([] if t[-1] == "-" else t[-1].split(";"))]
-        after = [(x[0], x[1], x[2] == "c") for x in ([] if pop_after == "-" else pop_after.split(";"))]
+        before = [(x[0], x[1], x[2] == "c", x[3] == "w") for x in ([] if t[-1] == "-" else t[-1].split(";"))]
+        after = [(x[0], x[1], x[2] == "c", x[3] == "w") for x in ([] if pop_after == "-" else pop_after.split(";"))]
         if proc == "sread":
             match = [d[0] for d in before if d[1] == serial]
             want = "ok:" + (match[0] if match else "none")
@@ -311,7 +317,7 @@ def oracle(case, out):
                     return f"device {i} with serial {b[1]} changed address"
             match = [d for d in after if d[1] == serial]
             if res == "ok" and not (match and match[0][0] == new):
-                return "write reported success but no device with that serial is at the new address"
+                return "write reported success but the device answering for that serial is not at the new address"
             if res != "ok" and match and all(d[0] == new for d in match):
                 return f"device with serial {serial} took the address but the procedure reported {res}"
         return None
@@ -336,7 +342,7 @@ def outcome_class(out):
 
 
 KINDS = [a + p + b for a in "to" for p in "01" for b in "ASR"]
-SKINDS = [a + s + c for a in "to" for s in "12" for c in "cq"]
+SKINDS = [a + s + c + w for a in "to" for s in "12" for c in "cq" for w in "wx"]
 
 
 def pops(kinds, nmax=3):
